@@ -1,4 +1,4 @@
-import TorrentVerif.Proofs.RbV1Complete
+import TorrentVerif.Proofs.RbV1First
 /- facts about the example worlds `Rebuild.Ex` used by the `example`s of the property files -/
 namespace TorrentVerif.Rebuild.Ex
 open TorrentVerif Rebuild PosixPath Spec Impl
@@ -42,5 +42,72 @@ theorem chunks_2 : chunks 2 ([1,2,3,4] : Bytes) = [[1,2],[3,4]] := by
   rw [chunks_cons 2 (by decide) _ (by decide)]
   simp only [List.take, List.drop]
   rw [chunks_nil]
+
+theorem filemapOK3 : FilemapOK Ex.fs2 [[100]] Ex.fmap3 := by
+  intro name cands hl c hc
+  obtain ⟨_, rfl⟩ := lookup_single hl
+  simp at hc
+  rcases hc with hc | hc <;> subst hc
+  · exact ⟨by decide, [1,2,3,4], by decide, rfl⟩
+  · exact ⟨by decide, [1,2,9,9], by decide, rfl⟩
+
+theorem intactV1_3 : IntactV1 Ex.fs2 Ex.fmap3 [⟨[102], [102], 4, none⟩] [[1,2,3,4]] := by
+  intro i r h
+  cases i with
+  | zero =>
+    simp at h; subst h
+    exact ⟨[([[115], [102]], 4), ([[115], [107], [102]], 4)], [[115],[102]], [1,2,3,4],
+      by decide, by decide, by decide, by decide⟩
+  | succ i => simp at h
+
+theorem destsSeparate_single (dest : Path) (r : FileRec) : DestsSeparate dest [r] := by
+  intro i j ri rj di dj hi hj _ _ _
+  have h1 : i < 1 := by simpa using (List.getElem?_eq_some_iff.mp hi).1
+  have h2 : j < 1 := by simpa using (List.getElem?_eq_some_iff.mp hj).1
+  omega
+
+theorem destFresh_2 : DestFresh Ex.fs2 [[100]] [⟨[102], [102], 4, none⟩] := by
+  intro r hr d hsj
+  simp at hr; subst hr
+  have : safeJoin [[100]] [102] = some [[100],[102]] := by decide
+  simp only at hsj
+  rw [this] at hsj; injection hsj with hsj; subst hsj
+  decide
+
+/-- with the original enumerated first nothing precedes an intact copy -/
+theorem noFirstPieceDecoy_3 : NoFirstPieceDecoy Ex.fs2 Ex.fmap3
+    (v1PieceNodes 2 [[1,2],[3,4]] [⟨[102], [102], 4, none⟩]) [[1,2,3,4]] := by
+  intro pre pp post _ pn _ _ cands l1 c l2 o hl hsplit _ hread ho x hx
+  have hidx : pn.idx = 0 := by
+    have := (List.getElem?_eq_some_iff.mp ho).1
+    simp at this; exact this
+  rw [hidx] at ho
+  simp at ho; subst ho
+  have hfn : pn.file.filename = [102] ∧ cands = [([[115], [102]], 4), ([[115], [107], [102]], 4)] := by
+    simp only [Ex.fmap3, List.lookup] at hl
+    split at hl
+    · rename_i heq
+      simp at hl
+      exact ⟨by simpa using heq, hl.symm⟩
+    · cases hl
+  obtain ⟨_, rfl⟩ := hfn
+  -- an intact copy can only be the first entry, so nothing precedes it
+  cases l1 with
+  | nil => simp at hx
+  | cons a l1' =>
+    exfalso
+    simp only [List.cons_append, List.cons.injEq] at hsplit
+    obtain ⟨_, hrest⟩ := hsplit
+    cases l1' with
+    | nil =>
+      simp only [List.nil_append, List.cons.injEq] at hrest
+      obtain ⟨hc, _⟩ := hrest
+      rw [← hc] at hread
+      have : Ex.fs2.readFile? [[115],[107],[102]] = some [1,2,9,9] := by decide
+      rw [this] at hread
+      exact absurd hread (by decide)
+    | cons b l1'' =>
+      have := congrArg List.length hrest
+      simp at this
 
 end TorrentVerif.Rebuild.Ex
